@@ -268,5 +268,30 @@ func fixedHarmless() []mutant {
 		{Harmless: true, ID: "h-r7-C16-fixed-vectors", Patch: "seeded/C16g-disguised-load-before-complete/fixed.diff", Vectors: true},
 		{Harmless: true, ID: "h-r7-C19-fixed", Patch: "seeded/C19g-disguised-populated-index-helper/fixed.diff"},
 		{Harmless: true, ID: "h-r7-C19-fixed-vectors", Patch: "seeded/C19g-disguised-populated-index-helper/fixed.diff", Vectors: true},
+		// the repaired forms of the round-10 seeds
+		{Harmless: true, ID: "h-r10-C01-fixed", Patch: "seeded/C01j-struct-cumulative-locend/fixed.diff"},
+		{Harmless: true, ID: "h-r10-C02-fixed", Patch: "seeded/C02j-struct-slice-of-fields-partial-truncate/fixed.diff"},
+		{Harmless: true, ID: "h-r10-C03-fixed", Patch: "seeded/C03j-struct-dvrs-slice-resolved-flag/fixed.diff"},
+		{Harmless: true, ID: "h-r10-C04-fixed", Patch: "seeded/C04j-struct-acquire-interim-writer-reset/fixed.diff"},
+		{Harmless: true, ID: "h-r10-C05-fixed", Patch: "seeded/C05j-sig-copystoreddocs-returns-next/fixed.diff"},
+		{Harmless: true, ID: "h-r10-C06-fixed", Patch: "seeded/C06j-helper-docvalue-flag-overwritten/fixed.diff"},
+		{Harmless: true, ID: "h-r10-C07-fixed", Patch: "seeded/C07j-fold-skip-into-read-freq-zero/fixed.diff"},
+		{Harmless: true, ID: "h-r10-C08-fixed", Patch: "seeded/C08j-fold-first-term-guard/fixed.diff"},
+		{Harmless: true, ID: "h-r10-C09-fixed", Patch: "seeded/C09j-rule-chunksneeded-1024/fixed.diff"},
+		{Harmless: true, ID: "h-r10-C10-fixed", Patch: "seeded/C10j-struct-thesaurus-id-slice/fixed.diff"},
+		{Harmless: true, ID: "h-r10-C11-fixed", Patch: "seeded/C11j-switch-skips-sentinel-check/fixed.diff"},
+		{Harmless: true, ID: "h-r10-C12-fixed", Patch: "seeded/C12j-struct-thesaurus-id-slice/fixed.diff"},
+		{Harmless: true, ID: "h-r10-C13-fixed", Patch: "seeded/C13j-struct-sources-livedrops-index/fixed.diff"},
+		{Harmless: true, ID: "h-r10-C14-fixed", Patch: "seeded/C14j-batch-addmany-padding/fixed.diff"},
+		{Harmless: true, ID: "h-r10-C14-fixed-vectors", Patch: "seeded/C14j-batch-addmany-padding/fixed.diff", Vectors: true},
+		{Harmless: true, ID: "h-r10-C15-fixed", Patch: "seeded/C15j-reconstruct-window-offset/fixed.diff"},
+		{Harmless: true, ID: "h-r10-C15-fixed-vectors", Patch: "seeded/C15j-reconstruct-window-offset/fixed.diff", Vectors: true},
+		{Harmless: true, ID: "h-r10-C16-fixed", Patch: "seeded/C16j-load-before-complete-again/fixed.diff"},
+		{Harmless: true, ID: "h-r10-C16-fixed-vectors", Patch: "seeded/C16j-load-before-complete-again/fixed.diff", Vectors: true},
+		{Harmless: true, ID: "h-r10-C17-fixed", Patch: "seeded/C17j-complete-in-defer-unnamed-results/fixed.diff"},
+		{Harmless: true, ID: "h-r10-C18-fixed", Patch: "seeded/C18j-empty-merge-early-return-again/fixed.diff"},
+		{Harmless: true, ID: "h-r10-C19-fixed", Patch: "seeded/C19j-build-faiss-index-helper/fixed.diff"},
+		{Harmless: true, ID: "h-r10-C19-fixed-vectors", Patch: "seeded/C19j-build-faiss-index-helper/fixed.diff", Vectors: true},
+		{Harmless: true, ID: "h-r10-C20-fixed", Patch: "seeded/C20j-narrow-lock-clear-in-close/fixed.diff"},
 	}
 }
